@@ -18,6 +18,10 @@ const (
 	Uncategorized
 )
 
+// UnknownCharacter is the token of a character that is not a part of the syntax but has the number of a token of
+// the grammar as its code point. It is greater than any code point and any token number.
+const UnknownCharacter = unicode.MaxRune + 1
+
 const (
 	TokenFrom   = IDENTIFIER
 	TokenTo     = SUBSTITUTION_OP
@@ -358,6 +362,10 @@ func (s *Scanner) Scan() (Token, error) {
 			literal = option.UnescapeIdentifier(s.literal.String(), ch)
 			token = IDENTIFIER
 			quoted = true
+		} else if yyPrivate <= ch && ch < yyPrivate+rune(len(yyTok2)) {
+			// The parser numbers the tokens of the grammar with the code points of a private use area.
+			// Such a character in the input is not the keyword that has its number.
+			token = UnknownCharacter
 		}
 	}
 
